@@ -2,6 +2,7 @@ package main
 
 import (
 	"encoding/json"
+	"go/ast"
 	"fmt"
 	"os"
 	"path/filepath"
@@ -16,6 +17,7 @@ import (
 type flowRef struct {
 	Comment string                         `json:"comment"`
 	Sources map[string]map[string][]string `json:"sources"` // area -> "func | source key" -> required facts ("Kind:label", "heap:Kind")
+	Params  map[string]map[string][]string `json:"params"`  // area -> "func | param#i" -> required facts
 	Exempt  map[string]string              `json:"exempt"`  // "func | source key" -> reason (FLOW-SOME exemptions)
 }
 
@@ -116,7 +118,7 @@ func collectSources(p *Prog, e *flowEngine, scope func(pkg string) bool) map[str
 func sinkFacts(f map[string]flabel) []string {
 	var ks []string
 	for k, l := range f {
-		if strings.HasPrefix(k, "store:") || strings.HasPrefix(k, "escape:") {
+		if strings.HasPrefix(k, "store:") || strings.HasPrefix(k, "escape:") || strings.Contains(k, "#") {
 			continue
 		}
 		if strings.HasPrefix(k, "heap:") {
@@ -149,41 +151,108 @@ func hasFact(f map[string]flabel, req string) bool {
 	return l != lNone
 }
 
-// chainFacts: sink facts of a source including what happens to it at the same-package call sites it is handed to:
-// local ∪ ⋂_{children} chainFacts(child).  Labels: a fact is raw only if raw on every contributing path.
-func (sf *srcFacts) chainFacts(depth int) map[string]flabel {
-	out := map[string]flabel{}
-	for k, l := range sf.facts {
+// fset: sink facts with per-kind site counts.
+type fset struct {
+	lab  map[string]flabel // "Kind" / "heap:Kind" -> label
+	nAll map[string]int    // "Kind" -> distinct sink sites reached
+	nRaw map[string]int    // "Kind" -> distinct sink sites reached by the wire itself
+}
+
+func newFset() *fset { return &fset{lab: map[string]flabel{}, nAll: map[string]int{}, nRaw: map[string]int{}} }
+
+func fsetOf(f map[string]flabel) *fset {
+	out := newFset()
+	for k, l := range f {
 		if strings.HasPrefix(k, "store:") || strings.HasPrefix(k, "escape:") {
 			continue
 		}
-		out[k] = l
+		if i := strings.Index(k, "#raw#"); i > 0 {
+			var n int
+			fmt.Sscanf(k[i+5:], "%d", &n)
+			out.nRaw[k[:i]] = n
+			continue
+		}
+		if i := strings.Index(k, "#"); i > 0 {
+			var n int
+			fmt.Sscanf(k[i+1:], "%d", &n)
+			out.nAll[k[:i]] = n
+			continue
+		}
+		out.lab[k] = l
 	}
+	return out
+}
+
+// meet: intersection (weakest label, smallest counts).
+func (a *fset) meet(b *fset) *fset {
+	out := newFset()
+	for k, l := range a.lab {
+		if l2, ok := b.lab[k]; ok {
+			out.lab[k] = minLabel(l, l2)
+		}
+	}
+	for k, n := range a.nAll {
+		if n2 := b.nAll[k]; n2 < n {
+			n = n2
+		}
+		if n > 0 {
+			out.nAll[k] = n
+		}
+	}
+	for k, n := range a.nRaw {
+		if n2 := b.nRaw[k]; n2 < n {
+			n = n2
+		}
+		if n > 0 {
+			out.nRaw[k] = n
+		}
+	}
+	return out
+}
+
+// plus: union of facts, counts added (sites in callers are distinct from local ones).
+func (a *fset) plus(b *fset) *fset {
+	out := newFset()
+	for k, l := range a.lab {
+		out.lab[k] = l
+	}
+	for k, l := range b.lab {
+		if l > out.lab[k] {
+			out.lab[k] = l
+		}
+	}
+	for k, n := range a.nAll {
+		out.nAll[k] = n
+	}
+	for k, n := range b.nAll {
+		out.nAll[k] += n
+	}
+	for k, n := range a.nRaw {
+		out.nRaw[k] = n
+	}
+	for k, n := range b.nRaw {
+		out.nRaw[k] += n
+	}
+	return out
+}
+
+// chainFacts: facts of a source including what happens to it at the same-package call sites it is handed
+// to: local + meet over children.
+func (sf *srcFacts) chainFacts(depth int) *fset {
+	out := fsetOf(sf.facts)
 	if depth >= 3 || len(sf.children) == 0 {
 		return out
 	}
-	var inter map[string]flabel
+	var inter *fset
 	for _, c := range sf.children {
 		cf := c.chainFacts(depth + 1)
 		if inter == nil {
 			inter = cf
-			continue
-		}
-		for k, l := range inter {
-			l2, ok := cf[k]
-			if !ok {
-				delete(inter, k)
-			} else if l2 < l {
-				inter[k] = l2
-			}
+		} else {
+			inter = inter.meet(cf)
 		}
 	}
-	for k, l := range inter {
-		if l > out[k] {
-			out[k] = l
-		}
-	}
-	return out
+	return out.plus(inter)
 }
 
 // refKey: hint sources are keyed by package and hint function (robust against renaming / inlining of the
@@ -196,9 +265,9 @@ func refKey(sf *srcFacts) string {
 	return Abstract(FuncName(sf.src.fn)) + " | " + sf.src.Key()
 }
 
-// aggregate: per reference key, the intersection over all matching sources of their chain facts.
-func aggregate(srcs map[string][]*srcFacts) (map[string]map[string]flabel, map[string][]*srcFacts) {
-	agg := map[string]map[string]flabel{}
+// aggregate: per reference key, the meet over all matching sources of their chain facts.
+func aggregate(srcs map[string][]*srcFacts) (map[string]*fset, map[string][]*srcFacts) {
+	agg := map[string]*fset{}
 	members := map[string][]*srcFacts{}
 	for _, list := range srcs {
 		for _, sf := range list {
@@ -210,32 +279,61 @@ func aggregate(srcs map[string][]*srcFacts) (map[string]map[string]flabel, map[s
 			cf := sf.chainFacts(0)
 			if agg[k] == nil {
 				agg[k] = cf
-				continue
-			}
-			for f, l := range agg[k] {
-				l2, ok := cf[f]
-				if !ok {
-					delete(agg[k], f)
-				} else if l2 < l {
-					agg[k][f] = l2
-				}
+			} else {
+				agg[k] = agg[k].meet(cf)
 			}
 		}
 	}
 	return agg, members
 }
 
-func factList(f map[string]flabel) []string {
+func factList(f *fset) []string {
 	var ks []string
-	for k, l := range f {
+	for k, l := range f.lab {
 		if strings.HasPrefix(k, "heap:") {
 			ks = append(ks, k)
 		} else {
 			ks = append(ks, k+":"+l.String())
 		}
 	}
+	for k, n := range f.nAll {
+		if n >= 2 {
+			ks = append(ks, fmt.Sprintf("%s#%d", k, n))
+		}
+	}
+	for k, n := range f.nRaw {
+		if n >= 2 {
+			ks = append(ks, fmt.Sprintf("%s#raw#%d", k, n))
+		}
+	}
 	sort.Strings(ks)
 	return ks
+}
+
+func (f *fset) has(req string) bool {
+	if i := strings.Index(req, "#raw#"); i > 0 {
+		var n int
+		fmt.Sscanf(req[i+5:], "%d", &n)
+		return f.nRaw[req[:i]] >= n
+	}
+	if i := strings.Index(req, "#"); i > 0 {
+		var n int
+		fmt.Sscanf(req[i+1:], "%d", &n)
+		return f.nAll[req[:i]] >= n
+	}
+	if strings.HasPrefix(req, "heap:") {
+		return f.lab[req] != lNone || f.lab[strings.TrimPrefix(req, "heap:")] != lNone
+	}
+	i := strings.LastIndex(req, ":")
+	if i < 0 {
+		return false
+	}
+	kind, lab := req[:i], req[i+1:]
+	l := f.lab[kind]
+	if lab == "raw" {
+		return l == lRaw
+	}
+	return l != lNone
 }
 
 // RunFlow evaluates FLOW-SOME and FLOW-REF for one area.
@@ -296,7 +394,7 @@ func RunFlow(p *Prog, r *Report, e *flowEngine, area string, scope func(pkg stri
 		pos := p.Pos(m.src.call.Pos())
 		var miss []string
 		for _, q := range req {
-			if !hasFact(cur, q) {
+			if !cur.has(q) {
 				miss = append(miss, q)
 			}
 		}
@@ -308,7 +406,7 @@ func RunFlow(p *Prog, r *Report, e *flowEngine, area string, scope func(pkg stri
 			for _, mm := range members[k] {
 				cf := mm.chainFacts(0)
 				for _, q := range miss {
-					if !hasFact(cf, q) {
+					if !cf.has(q) {
 						site = mm
 					}
 				}
@@ -319,6 +417,73 @@ func RunFlow(p *Prog, r *Report, e *flowEngine, area string, scope func(pkg stri
 	if nsrc < minSources {
 		r.Fail("UNRESOLVED", "-", "-", "flow-sources:"+area, "-", fmt.Sprintf("%d sources found, confirmed minimum %d", nsrc, minSources))
 	}
+	// FLOW-PARAM: operands of exported gadget functions keep reaching their reviewed sinks
+	pf := paramFacts(p, e, scope)
+	var pks []string
+	for k := range ref.Params[area] {
+		pks = append(pks, k)
+	}
+	sort.Strings(pks)
+	for _, k := range pks {
+		req := ref.Params[area][k]
+		parts := strings.SplitN(k, " | ", 2)
+		cur, ok := pf[k]
+		if !ok {
+			r.Add(&Obligation{Rule: "FLOW-PARAM", Pkg: "-", Func: parts[0], Key: parts[len(parts)-1], Pos: "-", OK: true, Info: true, Detail: "function / parameter no longer exists (API surface change): not evaluated"})
+			continue
+		}
+		var miss []string
+		for _, q := range req {
+			if !cur.f.has(q) {
+				miss = append(miss, q)
+			}
+		}
+		if len(miss) == 0 {
+			r.Pass("FLOW-PARAM", cur.pkg, cur.fname, parts[len(parts)-1], cur.pos, fmt.Sprintf("operand reaches the %d reviewed sinks: %s", len(req), strings.Join(req, " ")), true)
+		} else {
+			r.Fail("FLOW-PARAM", cur.pkg, cur.fname, parts[len(parts)-1], cur.pos, fmt.Sprintf("operand no longer reaches reviewed sink(s) %s (now: %s)", strings.Join(miss, " "), strings.Join(factList(cur.f), " ")))
+		}
+	}
+}
+
+type pfact struct {
+	f     *fset
+	pkg   string
+	fname string
+	pos   string
+}
+
+// paramFacts: for every exported top-level function / method of the scope, the local sink facts of each parameter.
+func paramFacts(p *Prog, e *flowEngine, scope func(string) bool) map[string]*pfact {
+	out := map[string]*pfact{}
+	for _, fn := range p.Funcs {
+		if fn.Parent() != nil || fn.Synthetic != "" {
+			continue
+		}
+		pk := FuncPkg(fn)
+		if pk == nil || !scope(pk.Path()) || !ast.IsExported(funcBaseName(fn)) {
+			continue
+		}
+		for i, pm := range fn.Params {
+			if !isVariableLike(pm.Type()) {
+				continue
+			}
+			if i == 0 && fn.Signature.Recv() != nil {
+				continue // receiver: gadget state, not an operand
+			}
+			fs := fsetOf(e.ParamFacts(fn, i))
+			if len(fs.lab) == 0 {
+				continue
+			}
+			k := fmt.Sprintf("%s | param#%d", Abstract(FuncName(fn)), i)
+			if old, ok := out[k]; ok {
+				old.f = old.f.meet(fs)
+			} else {
+				out[k] = &pfact{f: fs, pkg: pk.Path(), fname: FuncName(fn), pos: p.Pos(FuncPos(fn))}
+			}
+		}
+	}
+	return out
 }
 
 // emitFlow prints the reference stanza of an area (developer mode).
@@ -359,6 +524,7 @@ func init() {
 		cg := BuildCallGraph(p)
 		e := newFlowEngine(p, cg)
 		all := map[string]map[string][]string{}
+		allP := map[string]map[string][]string{}
 		var areas []string
 		for a := range flowAreas {
 			areas = append(areas, a)
@@ -369,8 +535,14 @@ func init() {
 				continue
 			}
 			all[a] = emitFlow(p, e, pkgScope(flowAreas[a]...))
+			allP[a] = map[string][]string{}
+			for k, v := range paramFacts(p, e, pkgScope(flowAreas[a]...)) {
+				if fl := factList(v.f); len(fl) > 0 {
+					allP[a][k] = fl
+				}
+			}
 		}
-		b, _ := json.MarshalIndent(all, "", " ")
+		b, _ := json.MarshalIndent(map[string]any{"sources": all, "params": allP}, "", " ")
 		fmt.Println(string(b))
 		return 0
 	}
